@@ -150,13 +150,6 @@ impl Park {
         }
     }
 
-    #[inline]
-    fn fast_wake_up(&self) {
-        if let Some(co) = self.wait_co.take() {
-            run_coroutine(co);
-        }
-    }
-
     /// park current coroutine with specified timeout
     /// if timeout happens, return Err(ParkError::Timeout)
     /// if cancellation detected, return Err(ParkError::Canceled)
@@ -247,7 +240,15 @@ impl EventSource for Park {
         if self.state.load(Ordering::Acquire) {
             // here may have recursive call for subscribe
             // normally the recursion depth is not too deep
-            return self.fast_wake_up();
+            // the coroutine may run to its end in here and drop this very park,
+            // whose drop waits for the kernel flag: release it first and only
+            // touch the shared slot afterwards
+            let wait_co = self.wait_co.clone();
+            drop(_g);
+            if let Some(co) = wait_co.take() {
+                run_coroutine(co);
+            }
+            return;
         }
 
         // register the cancel data
